@@ -274,6 +274,42 @@ func (e *Env) RErr(pkgs []*packages.Package, floorN int) {
 			// of the function must hand it on or return another error that was checked on that path
 			okDeferred := true
 			whyD := ""
+			// the returns that can follow: everything behind the test in the enclosing function (or
+			// function literal), not only in the block of the call; and an error variable that is
+			// declared inside a loop body is gone (or overwritten) with the next iteration
+			var encl ast.Node = s.fd.Body
+			for _, anc := range s.stack {
+				if fl, ok := anc.(*ast.FuncLit); ok {
+					encl = fl.Body
+				}
+			}
+			rest = nil
+			ast.Inspect(encl, func(n ast.Node) bool {
+				if _, isLit := n.(*ast.FuncLit); isLit && n.Pos() > is.End() {
+					return false
+				}
+				if rs, ok := n.(*ast.ReturnStmt); ok && rs.Pos() > is.End() {
+					rest = append(rest, rs)
+				}
+				return true
+			})
+			for _, anc := range s.stack {
+				var body *ast.BlockStmt
+				switch l := anc.(type) {
+				case *ast.ForStmt:
+					body = l.Body
+				case *ast.RangeStmt:
+					body = l.Body
+				}
+				if body != nil && errObj.Pos() >= body.Pos() && errObj.Pos() <= body.End() {
+					okDeferred = false
+					whyD = "the error variable is declared inside the loop at " + e.Prog.Pos(anc.Pos()) + ": when the extra condition does not hold the loop goes on and the error is gone"
+				}
+			}
+			if len(rest) == 0 {
+				okDeferred = false
+				whyD = "no return follows that could carry it"
+			}
 			for _, st := range rest {
 				ast.Inspect(st, func(n ast.Node) bool {
 					if _, isLit := n.(*ast.FuncLit); isLit {
